@@ -51,7 +51,14 @@ META = dict(
                "C03_threshold_counterexample, proved instead C03_threshold_partial / threshold_honoured_tick with the "
                "explicit `completed` escape); (2) with Base L/mL/CV the first line of a Block is judged on the enclosing "
                "scope's accumulator (Block Volume/CV tag refreshed only after the interpreter ran) — engine level, outside "
-               "the model. RECORDED INTERPRETATIONS: 'starts' = `started` flag; 'the Wait started' = the tick it began "
+               "the model. ORACLE CLOCKS: for s/min/h the engine oracle judges against its OWN ledger of the scope and block "
+               "clocks (per scope activation / started block the sum of the tick increments of the ticks in which the System "
+               "State tag showed Running and no Pause/Hold issued by the oracle was in force; emptied at every run start), "
+               "not against the engine's timers; a clock tag that differs from the ledger at judgement time is reported as "
+               "scope-clock-differs-from-elapsed-running-time. Two findings of that kind are recorded (Scope Time stuck at "
+               "0: stale scope entries kept over Stop/Restart, fix diff proposed; a scope activated twice in an alarm "
+               "nest). Volume/CV thresholds are judged against the accumulator tags. "
+               "RECORDED INTERPRETATIONS: 'starts' = `started` flag; 'the Wait started' = the tick it began "
                "waiting (wait_start_time, run-log state Started, what the repo's tests measure) — from the Wait's own "
                "`started` flag one tick earlier the window fails unless d is on the grid "
                "(C03_wait_window_from_own_start_counterexample; a reviewer of the property should decide that reading); "
@@ -255,7 +262,9 @@ def run(ctx: Check) -> int:
                 "window is judged per execution of the Wait, from one origin (the tick it began waiting): [d, d+0.1]; 25% of "
                 "the cases use volume / CV base units on a UOD with totalizer, column volume and the accumulator tags. In "
                 "ticks in which scope/block stacks, Block tag or Base change, a start is judged against the clocks that "
-                "were current at some moment of that tick, restricted by the line's lexical block / Watch scope.")
+                "were current at some moment of that tick, restricted by the line's lexical block / Watch scope. Run control in "
+                "the plans: Pause / Hold periods (also overlapping), Stop + Start and Restart with a second run of the method; "
+                "time-unit clocks come from the oracle's own ledger of elapsed Running time per scope / block.")
     corpus = [c for c in load_corpus("C03") if "pcode" in c and "plan" in c]
     run_oracle(ctx, corpus + hand_cases())
     a = gen_corr_cases(ctx, ctx.n(120, 2500), 8)
